@@ -578,6 +578,58 @@ pub fn run(ctx: &Ctx) {
         }
     }
     fresh_process_step(ctx, &pool);
+    alignment_step(ctx);
+}
+
+/// "a second value constructed from equal parameters produces the identical sample sequence": the same long
+/// float weight vector is handed to WeightedAliasIndex::new in buffers at different addresses (malloc gives
+/// 16-byte alignment; dummy allocations of varying size in between move the buffer across the 64-byte classes),
+/// and the resulting values must be indistinguishable (Debug, weights(), samples). Decimal weights 0.1, 0.2, ...
+/// have exact ties in the alias pairing, which amplify a last-bit difference of the sum into a different table.
+fn alignment_step(ctx: &Ctx) {
+    use rand_distr::weighted::WeightedAliasIndex;
+    use rand_distr::Distribution;
+    fn go<F: rand_distr::weighted::AliasableWeight + std::fmt::Debug + Copy + PartialEq>(ctx: &Ctx, name: &str, ws: &[F])
+    where
+        WeightedAliasIndex<F>: std::fmt::Debug,
+    {
+        let mut keep: Vec<Vec<u8>> = vec![];
+        let mut seen: std::collections::BTreeSet<usize> = Default::default();
+        let mut first: Option<(String, String, Vec<usize>)> = None;
+        for k in 0..24usize {
+            keep.push(vec![0u8; 8 + 16 * (k % 7)]); // perturb the allocator
+            let mut v: Vec<F> = Vec::with_capacity(ws.len());
+            v.extend_from_slice(ws);
+            seen.insert(v.as_ptr() as usize % 64);
+            let d = match crate::report::catch(|| WeightedAliasIndex::<F>::new(v)) {
+                Ok(Ok(d)) => d,
+                _ => return,
+            };
+            let dbg = format!("{:?}", d);
+            let wts = format!("{:?}", d.weights());
+            let mut rng = VRng::from_env(hseed(&[ctx.seed, 0xA119]));
+            let smp: Vec<usize> = (0..4000).map(|_| d.sample(&mut rng)).collect();
+            ctx.eval(1);
+            match &first {
+                None => first = Some((dbg, wts, smp)),
+                Some((d0, w0, s0)) => {
+                    if *d0 != dbg || *w0 != wts || *s0 != smp {
+                        let ndiff = s0.iter().zip(smp.iter()).filter(|(a, b)| a != b).count();
+                        let s = Schedule { cells: vec![], steps: vec![], seed: 0 };
+                        report(ctx, &s, "rebuilt_differs", &format!("WeightedAliasIndex<{name}> built twice from equal weight vectors of length {} (buffers at different addresses) differs: Debug equal {}, weights() equal {}, {} of 4000 samples differ on the same stream", ws.len(), *d0 == dbg, *w0 == wts, ndiff));
+                        return;
+                    }
+                }
+            }
+        }
+        ctx.class(&format!("alias_rebuild_alignment_classes_seen:{name}:len{}", ws.len()), seen.len() as u64);
+    }
+    for n in [33usize, 40, 64, 100, 200] {
+        let w64: Vec<f64> = (0..n).map(|i| ((i % 10) + 1) as f64 * 0.1).collect();
+        let w32: Vec<f32> = w64.iter().map(|&x| x as f32).collect();
+        go::<f64>(ctx, "f64", &w64);
+        go::<f32>(ctx, "f32", &w32);
+    }
 }
 
 /// `verif c14-probe <cell json> <seed> <k>`: the first k samples of a fresh object in a fresh *process* (this call
